@@ -24,7 +24,8 @@ EXPLANATION = (
     'array is zeroed on every path of clear(); (2) the Clear Hash listener must-calls TranspositionTable::clear, History::init and '
     'EngineMainThread::setClearHistory; History::init and KillerTable::clear write every member of every cell (loop bounds equal '
     'the array extents by constant evaluation); Search::iterativeDeepening must-calls KillerTable::clear before the first search '
-    'call; WorkerThread::CommHandler::initSearch clears killers and honours clearHistory; doSearch hands the flag on and resets it.')
+    'call; WorkerThread::CommHandler::initSearch clears killers and honours clearHistory; doSearch hands the flag on and resets it.'
+    ' The forward of the contempt to the table in Search::setWhiteContempt may depend on the thread number only.')
 UNDECIDED = ('equality of node counts as such; influence of state outside these classes (static-storage writers reachable from '
              'the search are listed under coverage.static_storage_writers for review, not judged); hash-key collisions in the '
              'evaluation cache.')
